@@ -5,6 +5,11 @@ and the orthogonality centre at the end of a step; compared with the implementat
 Stage C: oracle on algo.state after each step: identifiers / parent-child relations / shapes kept,
 canonical at the first node of the sweep (isometries toward the centre, centre norm = full norm),
 norm and energy drift, second-order reversibility with -H, saturated two-node exactness.
+Value level (stream `canonenv`): the hypotheses of Ptn.Ein.environment_is_identity / embedding_isometry_of_canonical /
+centre_norm_eq_full_norm_value (lean/Ptn/Common/EinsumIso.lean) are validated on states the library brings into canonical
+form (every mode): the isometry condition toward the centre in INDEX form on every node, the environment of the centre
+(einsum over the real tensors) against the identity; on integer (+-1 / 0) exact isometries the Lean model itself evaluates
+the environment and the norm network (`C04 einrec`, the function `netValue` the theorems are about) - compared exactly.
 """
 from __future__ import annotations
 
@@ -21,7 +26,10 @@ RULE = ("cases: random rooted trees with 2..7 nodes incl. chains rooted at an en
         "EXPM mode; plus saturated two-node cases; plus the input-space audit families shared with C05 (non-diagonal "
         "TTNOs, pre-gauged caller states, default configuration / builder function / Chebyshev / sparse exponential "
         "modes, real / integer / single-precision tensors, magnitudes 1e-8..1e8 with tolerances relative to the data, "
-        "physical dimension 1, prefix identifiers, read-only tensors, reset / setter histories). "
+        "physical dimension 1, prefix identifiers, read-only tensors, reset / setter histories); plus the value-level "
+        "stream canonenv: random trees 2..7 nodes, every centre, canonical_form in the modes REDUCED / FULL / KEEP on "
+        "generic and on redundant (rank-deficient) bonds, and exactly canonical integer states (signed permutation-like "
+        "isometries, bond dimension up to 3) evaluated by the Lean model. "
         "non-trivial = distinct (shape, variant, seed) with >= 3 nodes or a saturated two-node case")
 PARTIAL = ["conservation/reversibility are proved for abstract local flows (palindromic_reversible, runFlow_neg_reverse, "
            "runFlow_merge, runFlow_conserves, runFlow_monotone) and for one local update with an isometric or "
@@ -34,6 +42,11 @@ PARTIAL = ["conservation/reversibility are proved for abstract local flows (pali
            "axes; the *_structure_partial versions are kept with the weaker statement without open legs); bond "
            "dimensions and temporary identifiers are inputs of that model, which is compared with the library in the "
            "comp stream of C02; here the oracle checks relations and shapes on algo.state",
+           "value level: Ptn.C06.one_site_update_conserves_norm_of_canonical discharges the isometry hypothesis from "
+           "canonical form (index-form isometry condition on every non-centre node, Ptn.Ein.Kids.Canon); that the "
+           "state the library holds at an update IS in that form is validated per run (stream canonenv and after the "
+           "last step of every TDVP case), not proved; zero-padded bonds (KEEP mode: partial isometries) are outside "
+           "the hypothesis (covered by local_update_conserves_norm_padded with the projector as a hypothesis)",
            "floating-point accuracy of expm/QR is by contract"]
 ASSUMPTIONS = ["dense reference: eigh-based propagator for the two-node exactness clause"]
 
@@ -91,6 +104,22 @@ def gen_cases(ctx):
             cases.append({"kind": "saturated", "variant": v, "seed": rng.randrange(10 ** 9),
                           "d": rng.choice([2, 3]), "rootfirst": rng.random() < 0.5,
                           "retime": rng.choice([None, None, 2, 3])})
+    # value level: the environment of the centre of a canonical state is the identity
+    vrng = ctx.subrng("canonenv")
+    for k in range(ctx.n(36, 400)):
+        kind = vrng.choice([None, None, "spider", "chain", "twig", "bush"])
+        n = vrng.choice([6, 7]) if kind == "twig" else vrng.choice([2, 3, 4, 5, 5, 6, 7] if kind is None else [3, 4, 5, 6])
+        par = gen.random_parent_array(vrng, n, kind)
+        cases.append({"kind": "canonenv", "variant": "canonenv", "par": par, "seed": vrng.randrange(10 ** 9),
+                      "centre": vrng.randrange(n), "mode": ["REDUCED", "FULL", "KEEP"][k % 3],
+                      "fullrank": vrng.random() < 0.5, "exact": False})
+    for k in range(ctx.n(16, 160)):
+        n = vrng.choice([2, 3, 3, 4, 4, 5])
+        par = gen.random_parent_array(vrng, n, vrng.choice([None, None, "spider", "bush"]) if n >= 4 else None)
+        deg = [sum(1 for q in par if q == i) + (par[i] >= 0) for i in range(n)]
+        centre = deg.index(max(deg)) if k % 2 == 0 else vrng.randrange(n)    # half of the cases: a centre of maximal degree
+        cases.append({"kind": "canonenv", "variant": "canonenv", "par": par, "seed": vrng.randrange(10 ** 9),
+                      "centre": centre, "exact": True})
     # input-space audit (notes/C06.md): the families of C05 with the C06 oracle (all Hamiltonians Hermitian) ...
     arng = ctx.subrng("audit6")
     for c in c05.audit_cases(ctx, ("tdvp1", "tdvp2")):
@@ -274,9 +303,312 @@ def canonical_problems(ttn, centre, tol=1e-8):
     return probs
 
 
+# ------------------------------------------------------------------------------------------------------------------
+# value level: the hypotheses and the conclusion of Ptn.Ein.environment_is_identity on real states
+
+def _toward(ttn, centre):
+    """toward[n] = the neighbour of n on the path to the centre (None for the centre); BFS order."""
+    adj = {i: ([nd.parent] if nd.parent is not None else []) + list(nd.children) for i, nd in ttn.nodes.items()}
+    toward, order = {centre: None}, [centre]
+    k = 0
+    while k < len(order):
+        x = order[k]
+        k += 1
+        for y in adj[x]:
+            if y not in toward:
+                toward[y] = x
+                order.append(y)
+    return toward, order, adj
+
+
+def _axis_of(ttn, nid, nb):
+    nd = ttn.nodes[nid]
+    if nd.parent == nb:
+        return 0
+    return (0 if nd.parent is None else 1) + list(nd.children).index(nb)
+
+
+def iso_index_form(ttn, nid, nb):
+    """G[x, y] = sum over ALL legs of `nid` except the one toward `nb` of T[..., x] * conj(T)[..., y]
+    (the hypothesis `Sub.Canon` demands G = identity)."""
+    t = np.asarray(ttn.tensors[nid])
+    k = _axis_of(ttn, nid, nb)
+    others = [a for a in range(t.ndim) if a != k]
+    return np.tensordot(t, t.conj(), axes=(others, others))
+
+
+def env_matrix(ttn, centre):
+    """The contracted environment of the centre: all tensors and conjugated tensors of the other nodes, open legs paired,
+    bonds not at the centre summed in each copy; rows = ket indices of the centre's bonds, columns = bra indices."""
+    toward, order, adj = _toward(ttn, centre)
+    items = []
+    for nid in order[1:]:
+        nd = ttn.nodes[nid]
+        t = np.asarray(ttn.tensors[nid])
+        nbs = ([nd.parent] if nd.parent is not None else []) + list(nd.children)
+        nopen = t.ndim - len(nbs)
+        for tag, arr in (("k", t), ("b", t.conj())):
+            labs = [(tag, frozenset((nid, m))) for m in nbs] + [("o", nid, j) for j in range(nopen)]
+            items.append((arr, labs))
+    if not items:
+        return np.ones((1, 1)), []
+    arr, labs = dense.contract_labeled(items)
+    nbrs = adj[centre]
+    want = [("k", frozenset((m, centre))) for m in nbrs] + [("b", frozenset((m, centre))) for m in nbrs]
+    arr = np.transpose(arr, [labs.index(l) for l in want])
+    d = int(np.prod(arr.shape[:len(nbrs)]))
+    return arr.reshape(d, d), nbrs
+
+
+def env_problems(ctx, ttn, centre, tol, padded_ok):
+    """Hypothesis (index-form isometry toward the centre on every node) and conclusion (environment = identity) of
+    Ptn.Ein.environment_is_identity on a state.  With `padded_ok` (KEEP mode / TDVP states: zero-padded bonds) a node
+    whose G is an orthogonal projector other than the identity is outside the hypothesis: tallied, nothing demanded
+    beyond the projector property of the environment."""
+    probs = []
+    if any(0 in np.asarray(ttn.tensors[nid]).shape for nid in ttn.nodes):
+        return probs
+    toward, order, _ = _toward(ttn, centre)
+    padded = False
+    for nid in order[1:]:
+        g = iso_index_form(ttn, nid, toward[nid])
+        scale = 1.0
+        if np.allclose(g, np.eye(g.shape[0]), atol=tol * scale, rtol=0):
+            ctx.hyp_validated += 1
+            continue
+        proj = np.allclose(g @ g, g, atol=tol, rtol=0) and np.allclose(g, g.conj().T, atol=tol, rtol=0)
+        if padded_ok and proj:
+            padded = True
+            continue
+        probs.append(f"node {nid}: index-form isometry condition toward {toward[nid]} (centre {centre}) fails: "
+                     f"|G - 1| = {np.abs(g - np.eye(g.shape[0])).max():.2e}")
+    if probs:
+        return probs
+    env, nbrs = env_matrix(ttn, centre)
+    ctx.tally("env_state", "padded bonds (projector)" if padded else "isometries (identity)")
+    if padded:
+        if not (np.allclose(env @ env, env, atol=10 * tol, rtol=0) and np.allclose(env, env.conj().T, atol=10 * tol, rtol=0)):
+            probs.append(f"environment of the centre {centre} is not an orthogonal projector")
+    elif not np.allclose(env, np.eye(env.shape[0]), atol=10 * tol, rtol=0):
+        probs.append(f"environment of the centre {centre} (einsum over the tensors) is not the identity: "
+                     f"|Env - 1| = {np.abs(env - np.eye(env.shape[0])).max():.2e}")
+    return probs
+
+
+def _exact_canonical_state(rng, nprng, par, centre):
+    """A state that is EXACTLY canonical at `centre`, built through the library's public API: every other tensor is a
+    signed permutation-like isometry toward the centre (entries 0, +1, -1: one per column, in distinct rows), the centre
+    tensor has small integer entries."""
+    from pytreenet.ttns.ttns import TreeTensorNetworkState
+    n = len(par)
+    adj = {i: [] for i in range(n)}
+    for i, p in enumerate(par):
+        if p >= 0:
+            adj[i].append(p)
+            adj[p].append(i)
+    order = gen.insertion_order(rng, par)
+    attach = {i: [] for i in range(n)}
+    for x in order:
+        if par[x] >= 0:
+            attach[par[x]].append(x)
+    toward, post, stack = {centre: None}, [], [centre]
+    while stack:
+        x = stack.pop()
+        post.append(x)
+        for y in adj[x]:
+            if y not in toward:
+                toward[y] = x
+                stack.append(y)
+    open_dims = {i: [rng.choice([1, 2, 2, 3])] for i in range(n)}
+    bond, tensors = {}, {}
+
+    def edge(a, b):
+        return (a, b) if par[b] == a else (b, a)
+    for x in reversed(post):
+        legs = ([("p",)] if par[x] >= 0 else []) + [("c", c) for c in attach[x]] + [("o", 0)]
+
+        def nb_of(l):
+            return par[x] if l[0] == "p" else l[1]
+        if x == centre:
+            dims = [bond[edge(x, nb_of(l))] if l[0] != "o" else open_dims[x][0] for l in legs]
+            tensors[x] = np.array([rng.randint(-2, 2) for _ in range(int(np.prod(dims)))], dtype=float).reshape(dims)
+            continue
+        out_leg = [l for l in legs if l[0] != "o" and nb_of(l) == toward[x]][0]
+        in_legs = [l for l in legs if l != out_leg]
+        in_dims = [bond[edge(x, nb_of(l))] if l[0] != "o" else open_dims[x][0] for l in in_legs]
+        d_in = int(np.prod(in_dims))
+        d_out = rng.randint(1, min(d_in, 3))
+        bond[edge(x, toward[x])] = d_out
+        m = np.zeros((d_in, d_out))
+        for col, r in enumerate(rng.sample(range(d_in), d_out)):
+            m[r, col] = rng.choice([1, 1, -1])
+        cur = in_legs + [out_leg]
+        tensors[x] = np.transpose(m.reshape(in_dims + [d_out]), [cur.index(l) for l in legs])
+    ttns, canon, att, names = gen.build_network(TreeTensorNetworkState, par, bond, open_dims, rng, nprng,
+                                                order=order, tensors=tensors)
+    return ttns, names
+
+
+def _norm_network(ttn, centre):
+    """The doubled network in the vocabulary of Ptn.Ein.Sub / Kids / Centre: numbered legs, their dimensions, the leaves
+    (legs, integer tensor) ket and bra per node, and the binding record in the order of `Kids.binds` (open-leg pairs of a
+    node, then per sub-tree the two bonds `(d, u)`, `(d', u')` and the sub-tree's own record).
+    Returns dims, leaf(nid) -> [(legs, arr) ket, (legs, arr) bra], in_binds, ups, link_binds, centre_phys."""
+    toward, order, adj = _toward(ttn, centre)
+    dims, num = [], {}
+
+    def leg(tag, nid, what):
+        key = (tag, nid, what)
+        if key not in num:
+            num[key] = len(dims)
+            dims.append(None)
+        return num[key]
+    leaves = {}
+    for nid in order:
+        nd = ttn.nodes[nid]
+        t = np.asarray(ttn.tensors[nid])
+        nbs = ([nd.parent] if nd.parent is not None else []) + list(nd.children)
+        out = []
+        for tag in ("k", "b"):
+            ll = [leg(tag, nid, ("nb", m)) for m in nbs] + [leg(tag, nid, ("o", j)) for j in range(t.ndim - len(nbs))]
+            for l, d in zip(ll, t.shape):
+                dims[l] = int(d)
+            out.append((ll, np.round(t.real).astype(np.int64)))
+        leaves[nid] = out
+    kids_of = {nid: [m for m in adj[nid] if toward.get(m) == nid] for nid in order}
+
+    def phys(nid):
+        t = np.asarray(ttn.tensors[nid])
+        nopen = t.ndim - len(adj[nid])
+        return [(num[("k", nid, ("o", j))], num[("b", nid, ("o", j))]) for j in range(nopen)]
+
+    def sub_binds(nid):
+        return phys(nid) + kid_binds(nid)
+
+    def kid_binds(nid):
+        out = []
+        for c in kids_of[nid]:
+            out += [(num[("k", nid, ("nb", c))], num[("k", c, ("nb", nid))]),
+                    (num[("b", nid, ("nb", c))], num[("b", c, ("nb", nid))])] + sub_binds(c)
+        return out
+    in_binds = [b for c in kids_of[centre] for b in sub_binds(c)]
+    ups = [(num[("k", c, ("nb", centre))], num[("b", c, ("nb", centre))]) for c in kids_of[centre]]
+    pairs = [(num[("k", centre, ("nb", c))], num[("b", centre, ("nb", c))]) for c in kids_of[centre]]
+    return dims, leaves, order, in_binds, ups, phys(centre) + kid_binds(centre), phys(centre) + pairs
+
+
+def _np_net(dims, free, pairs, leaves):
+    sym = {}
+    for k, (a, b) in enumerate(pairs):
+        sym[a] = sym[b] = k
+    for l in free:
+        sym[l] = len(pairs) + free.index(l)
+    args = []
+    for legs, arr in leaves:
+        args += [arr, [sym[l] for l in legs]]
+    args.append([sym[l] for l in free])
+    return np.einsum(*args)
+
+
+def _canonenv(ctx, case):
+    from harness import einsum_corr
+    from pytreenet.util.tensor_splitting import SplitMode
+    rng = random.Random(case["seed"])
+    nprng = np.random.default_rng(case["seed"])
+    par = case["par"]
+    n = len(par)
+    ctx.tally("variant", "canonenv-exact" if case["exact"] else "canonenv-" + case["mode"])
+    ctx.tally("nodes", n)
+    ctx.count(("canonenv", tuple(par), case["seed"], case["centre"], case.get("mode"), case["exact"]),
+              nontrivial=n >= 3, corr=case["exact"])
+    if not case["exact"]:
+        if case.get("fullrank"):
+            ttns, info = gen.random_fullrank_ttns(rng, nprng, par, phys=(2, 3) if n <= 5 else (2,), bonds=(2, 2, 3))
+        else:
+            ttns, info = gen.random_ttns(rng, nprng, par, phys=(2, 2, 3) if n <= 5 else (2,), bonds=(1, 2, 3, 4))
+        centre = info["names"][case["centre"]]
+        v0 = dense.ttns_vector(ttns, sorted(ttns.nodes))
+        try:
+            ttns.canonical_form(centre, mode=getattr(SplitMode, case["mode"]))
+        except Exception as e:          # noqa: BLE001
+            ctx.oracle_fail(case, f"canonical_form({case['mode']}) raised {type(e).__name__}: {str(e)[:160]}")
+            return
+        probs = env_problems(ctx, ttns, centre, 1e-10, padded_ok=case["mode"] == "KEEP")
+        v1 = dense.ttns_vector(ttns, sorted(ttns.nodes))
+        if v1.shape != v0.shape or np.linalg.norm(v1 - v0) > 1e-9 * max(1.0, float(np.linalg.norm(v0))):
+            probs.append("canonical_form changed the represented state")
+        cn = float(np.linalg.norm(ttns.tensors[centre]))
+        if abs(cn - np.linalg.norm(v1)) > 1e-9 * max(1.0, float(np.linalg.norm(v1))):
+            probs.append(f"norm of the centre tensor {cn:.12g} != norm of the state {np.linalg.norm(v1):.12g}")
+        if probs:
+            ctx.oracle_fail(case, f"canonenv {case['mode']} centre {centre}: " + "; ".join(probs[:3]))
+        return
+    # exact integer isometries: the Lean model evaluates the environment and the norm network
+    ttns, names = _exact_canonical_state(rng, nprng, par, case["centre"])
+    centre = names[case["centre"]]
+    probs = env_problems(ctx, ttns, centre, 1e-12, padded_ok=False)
+    if probs:
+        ctx.oracle_fail(case, "canonenv exact: harness: the constructed state is not canonical: " + probs[0])
+        return
+    dims, leaves, order, in_binds, ups, norm_binds, centre_binds = _norm_network(ttns, centre)
+    env_leaves = [lf for nid in order[1:] for lf in leaves[nid]]
+    free = [l for p in ups for l in p]
+    size = int(np.prod([dims[a] for a, _ in norm_binds])) if norm_binds else 1
+    if size > 60000:
+        ctx.tally("canonenv_exact", "skipped (too large)")
+        return
+    lines = [einsum_corr.einrec_line(dims, free, in_binds, env_leaves),
+             einsum_corr.einrec_line(dims, [], norm_binds, leaves[centre] + env_leaves),
+             einsum_corr.einrec_line(dims, [], centre_binds, leaves[centre])]
+    outs = ctx.lean.batch(lines)
+    tabs = [einsum_corr.parse_table(o, "full") for o in outs]
+    if any(t is None for t in tabs):
+        ctx.corr_fail(case, f"canonenv exact: the value-level model rejects the norm network of a canonical state: {outs}")
+        return
+    # (1) environment: model table = numpy einsum over the library's tensors = identity
+    ref = _np_net(dims, free, in_binds, env_leaves) if env_leaves else np.array(1)
+    want = [int(x) for x in np.asarray(ref).reshape(-1)]
+    ident = np.ones(())
+    for a, b in ups:
+        ident = np.multiply.outer(ident, np.eye(dims[a], dims[b]))
+    if [int(x) for x in np.asarray(ident).reshape(-1)] != want:
+        ctx.oracle_fail(case, "canonenv exact: einsum environment of the centre is not the product of Kronecker deltas")
+    if tabs[0] != want:
+        ctx.corr_fail(case, f"canonenv exact: Lean model's environment table {tabs[0][:12]} != numpy einsum over the "
+                            f"library's tensors {want[:12]}")
+    # (2) norm network and centre-only network: equal (centre_norm_eq_full_norm_value), and equal to <psi|psi>
+    v = dense.ttns_vector(ttns, sorted(ttns.nodes))
+    nrm2 = int(round(float(np.vdot(v, v).real)))
+    libs = {}
+    for route in ("full contraction", "centre tensor alone"):
+        try:
+            if route == "centre tensor alone":
+                ttns.orthogonality_center_id = centre         # the library now takes the norm from the centre tensor
+                val = ttns.scalar_product()
+            else:
+                val = ttns.scalar_product(use_orthogonal_center=False)
+            libs[route] = int(round(complex(val).real)) if abs(complex(val) - round(complex(val).real)) < 1e-9 else complex(val)
+        except Exception as e:          # noqa: BLE001
+            libs[route] = f"raised {type(e).__name__}"
+    if tabs[1] != [nrm2] or tabs[2] != [nrm2]:
+        ctx.corr_fail(case, f"canonenv exact: Lean model: norm network {tabs[1]}, centre tensor alone {tabs[2]}, dense "
+                            f"<psi|psi> = {nrm2}")
+    for route, k in (("full contraction", 1), ("centre tensor alone", 2)):
+        if [libs[route]] != tabs[k]:
+            ctx.corr_fail(case, f"canonenv exact: scalar_product() by {route} = {libs[route]}, the Lean model evaluates the "
+                                f"same network on the same integer tensors to {tabs[k]}")
+        if libs[route] != nrm2:
+            ctx.oracle_fail(case, f"canonenv exact: scalar_product() by {route} of an exactly canonical integer state = "
+                                  f"{libs[route]}, dense <psi|psi> = {nrm2}")
+    ctx.tally("canonenv_exact", f"bonds at centre {len(ups)}")
+
+
 def _run_one(ctx, case, rec):
     if case["kind"] == "saturated":
         _saturated(ctx, case)
+        return None
+    if case["kind"] == "canonenv":
+        _canonenv(ctx, case)
         return None
     rng, nprng, ttns, info, H, Hm, Hneg = _problem(case)
     variant = case["variant"]
@@ -365,6 +697,9 @@ def _run_one(ctx, case, rec):
         if rec.events:
             last_targets.append(rec.events[-1][1][0])
     rec.algo = None
+    if not probs:
+        # value level: the state the algorithm holds is canonical at the first node of the sweep - index form + environment
+        probs += env_problems(ctx, algo.state, up[0], 1e-10 if tf == 1.0 else 1e-8 * tf, padded_ok=True)
     # reversibility (second order, generic full-rank states only: the flows are then well-defined)
     if not probs and variant == "tdvp2" and case.get("fullrank"):
         try:
